@@ -12,13 +12,14 @@ RULE = (
     "history monitor: one live stock object receives random sequences of {write driver values, set_prms (arrays or FlodymArrays), compute, "
     "read sf/pdf, compute}; after every compute() a fresh twin (new lifetime model + new stock built from the driver values and parameter "
     "arrays the live object holds at that moment) is computed with monitoring paused and stock, inflow, outflow, both cohort tables and the "
-    "survival/outflow-probability tables must agree to 1e-12; compute() twice in a row must change nothing.  All stock classes/solvers x "
+    "survival/outflow-probability tables must agree to 1e-12; compute() twice in a row must change nothing.  Second sentence of the property: an MFASystem subclass whose compute() sets drivers, re-parameterises the lifetime models of stocks built by make_empty_stocks and computes them is run over 5 scenarios (changing driver, mean, spread; sometimes an all-zero driver) and after each scenario every stock is compared with a freshly built system; the shipped example system is looped likewise.  All stock classes/solvers x "
     "lifetime models x grids; histories of length 4-12.  Configuration signature = (class/solver, model, grid class, n_t, last four operations)"
 )
 
 
 def run(rec, hub, tier, seed, shard, nshards, budget):
     rec.require(dsm.M17, 50)
+    rec.require(dsm.M17S, 20)
     n = 300 if tier == "quick" else 1500
     for k in range(n):
         if not budget.ok():
@@ -26,8 +27,19 @@ def run(rec, hub, tier, seed, shard, nshards, budget):
         i = k * nshards + shard
         rec.set_case(driver="c17.case", seed=seed, tier=tier, shard=shard, nshards=nshards, idx=i)
         dsm.c17_case(rec, hub, case_nprng(seed, "c17.case", 0, i), tier, i)
+        if k % 4 == 0:
+            rec.set_case(driver="c17.system", seed=seed, tier=tier, shard=shard, nshards=nshards, idx=i)
+            dsm.c17_system_case(rec, hub, case_nprng(seed, "c17.system", 0, i), tier, i)
+    rec.set_case(driver="c17.example", seed=seed, tier=tier, shard=shard, nshards=nshards, idx=shard)
+    dsm.c17_example_case(rec, hub, case_nprng(seed, "c17.example", 0, shard))
 
 
 def replay(rec, hub, case):
     rec.set_case(**case)
+    if case["driver"] == "c17.system":
+        dsm.c17_system_case(rec, hub, case_nprng(case["seed"], "c17.system", 0, case["idx"]), case.get("tier", "quick"), case["idx"])
+        return
+    if case["driver"] == "c17.example":
+        dsm.c17_example_case(rec, hub, case_nprng(case["seed"], "c17.example", 0, case["idx"]))
+        return
     dsm.c17_case(rec, hub, case_nprng(case["seed"], "c17.case", 0, case["idx"]), case.get("tier", "quick"), case["idx"])
